@@ -246,6 +246,14 @@ def main_wrapper(fn):
     except Inconclusive as e:
         print("INCONCLUSIVE: %s" % e, file=sys.stderr)
         sys.exit(2)
+    except SystemExit:
+        raise
+    except BaseException:
+        # a failure of the machinery itself is never a verdict about the code under test
+        import traceback
+        traceback.print_exc()
+        print("INCONCLUSIVE: the check itself failed (see traceback)", file=sys.stderr)
+        sys.exit(2)
 
 
 def read_ndjson(path):
